@@ -12,8 +12,205 @@ def build(tier):
     R.install(P)
     P.shape("RB", RB + "ReplayBuffer", R.rb_fields())
     R.rb_contracts(P, verify=True)
+    ma_contracts(P)
     P.assumptions += ["A-INT64: tensor indices treated as mathematical integers",
                       "a TensorDict row is one abstract value: fields of one transition are written by one row assignment"]
-    P.uncovered += ["per-field shape normalisation in Transition.__post_init__ (components/data.py) - bounded native check only",
+    P.uncovered += ["per-field shape normalisation in Transition.__post_init__ (components/data.py) and MultiAgentReplayBuffer.stack_transitions (numpy stacking) - not under contract",
                     "vector/image/dict/tuple observation kinds are abstracted by the row model (the code under contract is kind-agnostic)"]
     return P
+
+
+# ====================================================================================== MultiAgentReplayBuffer
+import ast as _ast                                                                  # noqa: E402
+from pyvc.execu import z3ify                                                        # noqa: E402
+from pyvc.values import Fn, Obj, Opaque, PyRaise, Seq, Undecided, fresh_name        # noqa: E402
+
+MA = "agilerl.components.multi_agent_replay_buffer.MultiAgentReplayBuffer"
+FIELDS, AGENTS = ["obs", "reward"], ["agent_0", "agent_1"]
+Val = z3.DeclareSort("MAVal")
+Exp = z3.DeclareSort("Experience")
+mkexp = z3.Function("mkexp", Val, Val, Val, Val, Exp)                  # (obs[a0], obs[a1], reward[a0], reward[a1])
+PROJ = {(f, a): z3.Function(f"{f}_of_{a}", Exp, Val) for f in FIELDS for a in AGENTS}
+
+
+def exp_axioms():
+    vs = [z3.Const(f"v{i}!ma", Val) for i in range(4)]
+    e = mkexp(*vs)
+    keys = [(f, a) for f in FIELDS for a in AGENTS]
+    return [z3.ForAll(vs, z3.And(*[PROJ[k](e) == v for k, v in zip(keys, vs)]), patterns=[e])]
+
+
+class ExpV:
+    def __init__(self, term):
+        self.term = term
+
+    def getattr_dyn(self, ex, st, name, default=()):
+        return self.getattr(ex, st, name)
+
+    def getattr(self, ex, st, name):
+        if name in FIELDS:
+            return {a: PROJ[(name, a)](self.term) for a in AGENTS}
+        raise Undecided(f"experience field {name}")
+
+
+def wrap_exp(t):
+    return ExpV(t)
+
+
+class DequeM:
+    """collections.deque(maxlen=N) of experiences (trusted): append keeps the last N items in order."""
+
+    def __init__(self, maxlen, seq):
+        self.maxlen, self.seq = maxlen, seq
+
+    def length(self, ex, st):
+        return self.seq.len
+
+    def getattr(self, ex, st, name):
+        if name == "append":
+            def append(ex, st, a, k):
+                e = a[0]
+                if not isinstance(e, ExpV):
+                    raise Undecided("append of a non-experience")
+                n, N = z3ify(self.seq.len), z3ify(self.maxlen)
+                j = z3.Int(fresh_name("j"))
+                new = z3.Const(fresh_name("memory"), self.seq.arr.sort())
+                full = n >= N
+                st.assume(z3.ForAll([j], new[j] == z3.If(full, z3.If(j == N - 1, e.term, self.seq.arr[j + 1]), z3.If(j == n, e.term, self.seq.arr[j]))))
+                self.seq.arr = new
+                self.seq.len = z3.simplify(z3.If(full, N, n + 1))
+            return Fn(model=append, name="append")
+        raise Undecided(f"deque attribute {name}")
+
+    def havoc(self, ex, st, name):
+        self.seq.arr = z3.Const(fresh_name("memory"), self.seq.arr.sort())
+        self.seq.len = z3.Int(fresh_name("memory.len"))
+        st.assume(z3.And(self.seq.len >= 0, self.seq.len <= z3ify(self.maxlen)))
+
+
+class StackV:
+    """result of stack_transitions: row b is the b-th value of the list"""
+
+    def __init__(self, seq):
+        self.seq = seq
+
+    def getattr(self, ex, st, name):
+        if name == "astype":
+            return Fn(model=lambda ex, st, a, k: self, name=name)
+        raise Undecided(name)
+
+
+def ma_contracts(P):
+    P.axioms += exp_axioms()
+    N = z3.Int("memory_size")
+    H = z3.Const("MAH", z3.ArraySort(z3.IntSort(), Exp))          # ghost history of everything ever added
+    TOT = z3.Int("ma_tot")
+    P.axioms += [N >= 1]
+
+    def ma_self(ex, st, label):
+        o = Obj(MA, label="self")
+        seq = Seq.new("Experience", "memory")
+        seq.wrap = wrap_exp
+        o.fields.update(dict(memory_size=N, memory=DequeM(N, seq), field_names=list(FIELDS), agent_ids=list(AGENTS), counter=z3.Int("counter"), device=None,
+                             experience=Fn(model=lambda ex, st, a, k: ExpV(mkexp(*[a[fi][ag] for fi in range(len(FIELDS)) for ag in AGENTS])), name="Experience")))
+        return o
+
+    def MA_INV(b, H_, tot):
+        m = b.fields["memory"].seq
+        i = z3.Int("i!ma")
+        n = z3.If(tot < N, tot, N)
+        return z3.And(tot >= 0, m.len == n, z3.ForAll([i], z3.Implies(z3.And(0 <= i, i < n), m.arr[i] == H_[tot - n + i]), patterns=[m.arr[i]]))
+    e_new = lambda args: mkexp(*[args[fi][ag] for fi in range(len(FIELDS)) for ag in AGENTS])
+    P.specns.update(dict(MA_INV=MA_INV, MAH=H, ma_tot=TOT, e_new=e_new, Store=z3.Store))
+    args1 = lambda ex, st, l: tuple({a: z3.Const(f"arg.{f}.{a}", Val) for a in AGENTS} for f in FIELDS)
+    P.contract(MA + ".save_to_memory_single_env", params={"self": ma_self, "args": args1},
+               requires=["MA_INV(self, MAH, ma_tot)"], frame_fields=False,
+               ensures=["MA_INV(self, Store(MAH, ma_tot, e_new(args)), ma_tot + 1)",      # exactly the last min(N, added) experiences, in order
+                        "self.counter == old(self.counter) + 1"], replay="c09:ma_buffer")
+    P.contract(MA + ".__len__", params={"self": ma_self}, requires=["MA_INV(self, MAH, ma_tot)"], frame_fields=False,
+               ensures=["result == (ma_tot if ma_tot < memory_size else memory_size)"], replay="c09:ma_buffer")
+    P.specns["memory_size"] = N
+
+    # vectorised save: every per-env slice keeps the fields and agents of ONE environment together (E enumerated 1..3, values symbolic)
+    for E in (1, 2, 3):
+        def argsE(ex, st, l, E=E):
+            return tuple({a: [z3.Const(f"vec.{f}.{a}.{i}", Val) for i in range(E)] for a in AGENTS} for f in FIELDS)
+
+        def reorg_post(result, args, E=E):
+            if not (isinstance(result, tuple) and len(result) == len(FIELDS)):
+                return z3.BoolVal(False)
+            out = []
+            for j in range(len(FIELDS)):
+                if not (isinstance(result[j], list) and len(result[j]) == E):
+                    return z3.BoolVal(False)
+                for i in range(E):
+                    d = result[j][i]
+                    if not (isinstance(d, dict) and set(d) == set(AGENTS)):
+                        return z3.BoolVal(False)
+                    out += [z3ify(d[a]) == args[j][a][i] for a in AGENTS]      # results[field][env][agent] == args[field][agent][env]
+            return z3.And(*out)
+        P.specns[f"reorg_post_{E}"] = reorg_post
+        P.contract(MA + "._reorganize_dicts", variant=f"E{E}", params={"self": ma_self, "args": argsE}, requires=[], frame_fields=False,
+                   ensures=[f"reorg_post_{E}(result, args)"], replay="c09:ma_buffer")
+
+        def hist_after(args, E=E):
+            h = H
+            for i in range(E):
+                h = z3.Store(h, TOT + i, mkexp(*[args[fi][ag][i] for fi in range(len(FIELDS)) for ag in AGENTS]))
+            return h
+        P.specns[f"hist_after_{E}"] = hist_after
+        P.contract(MA + ".save_to_memory_vect_envs", variant=f"E{E}", params={"self": ma_self, "args": argsE},
+                   requires=["MA_INV(self, MAH, ma_tot)"], frame_fields=False,
+                   ensures=[f"MA_INV(self, hist_after_{E}(old(args)), ma_tot + {E})", f"self.counter == old(self.counter) + {E}"], replay="c09:ma_buffer")
+    P.lib["numpy.array"] = lambda ex, st, a, k: a[0]
+
+    # sampling: batch rows come from stored experiences, row b of EVERY field and agent from the same experience b
+    BS = z3.Int("batch_size")
+
+    def rsample(ex, st, a, k):
+        mem, n = a[0], k.get("k", a[1] if len(a) > 1 else None)
+        if not isinstance(mem, DequeM):
+            raise Undecided("random.sample of unknown population")
+        idx = Seq.new("int", "sample_idx", n)
+        p, q = z3.Int(fresh_name("p")), z3.Int(fresh_name("q"))
+        nz, mz = z3ify(n), z3ify(mem.seq.len)
+        if ex.feasible(st, z3.Or(nz < 0, nz > mz)):
+            if ex.decide(st, z3.Or(nz < 0, nz > mz)):
+                raise PyRaise("ValueError", "sample larger than population")
+        st.assume(z3.ForAll([p], z3.Implies(z3.And(0 <= p, p < nz), z3.And(0 <= idx.arr[p], idx.arr[p] < mz)), patterns=[idx.arr[p]]))
+        st.assume(z3.ForAll([p, q], z3.Implies(z3.And(0 <= p, p < q, q < nz), idx.arr[p] != idx.arr[q])))
+        out = Seq.new("Experience", "sampled", n)
+        out.wrap = wrap_exp
+        st.assume(z3.ForAll([p], z3.Implies(z3.And(0 <= p, p < nz), out.arr[p] == mem.seq.arr[idx.arr[p]]), patterns=[out.arr[p]]))
+        out.idx = idx
+        rsample.last = (out, idx)
+        return out
+    P.lib["random.sample"] = rsample
+    P.lib[MA + ".stack_transitions"] = lambda ex, st, a, k: StackV(a[0])
+    P.lib["agilerl.utils.algo_utils.obs_to_tensor"] = lambda ex, st, a, k: a[0]
+
+    def sample_post(result, b):
+        if not (isinstance(result, tuple) and len(result) == len(FIELDS)):
+            return z3.BoolVal(False)
+        out_seq, idx = rsample.last
+        m = b.fields["memory"].seq
+        k = z3.Int("k!sp")
+        out = []
+        for fi, f in enumerate(FIELDS):
+            d = result[fi]
+            if not (isinstance(d, dict) and set(d) == set(AGENTS)):
+                return z3.BoolVal(False)
+            for a in AGENTS:
+                s = d[a]
+                if not isinstance(s, StackV):
+                    return z3.BoolVal(False)
+                out.append(z3ify(s.seq.len) == BS)
+                out.append(z3.ForAll([k], z3.Implies(z3.And(0 <= k, k < BS), s.seq.arr[k] == PROJ[(f, a)](m.arr[idx.arr[k]]))))   # same stored experience for all fields/agents
+        return z3.And(*out)
+    P.specns["sample_post"] = sample_post
+    P.contract(MA + ".sample", params={"self": ma_self, "batch_size": (lambda ex, st, l: BS), "args": (lambda ex, st, l: ())},
+               requires=["MA_INV(self, MAH, ma_tot)", "0 <= batch_size", "batch_size <= len(self.memory)"], frame_fields=False,
+               ensures=["sample_post(result, self)"], replay="c09:ma_buffer")
+    P.trusted += ["collections.deque(maxlen=N).append keeps the last N items in order; random.sample(pop, k) returns k items at pairwise distinct positions; "
+                  "namedtuple experiences as an uninterpreted constructor with projections; stack_transitions stacks the list row by row (numpy, not under contract)",
+                  "MultiAgentReplayBuffer: two fields x two agents (structure concrete, values symbolic); vectorised save enumerated for 1..3 environments"]
